@@ -118,15 +118,25 @@ func (g *SymbolGraph) RemoveEdge(from, to graphs.SymbolKey, kind *SymbolEdgeKind
 		return
 	}
 
+	// Edges are keyed by base ID whereas deps/revDeps hold full, versioned keys; the keys given here may
+	// carry a different file version than the ones the edge was added with - drop every version.
 	if depsMap, ok := g.deps[fromBase]; ok {
-		delete(depsMap, to)
+		for depKey := range depsMap {
+			if depKey.BaseId() == toBase {
+				delete(depsMap, depKey)
+			}
+		}
 		if len(depsMap) == 0 {
 			delete(g.deps, fromBase)
 		}
 	}
 
 	if revMap, ok := g.revDeps[toBase]; ok {
-		delete(revMap, from)
+		for revKey := range revMap {
+			if revKey.BaseId() == fromBase {
+				delete(revMap, revKey)
+			}
+		}
 		if len(revMap) == 0 {
 			delete(g.revDeps, toBase)
 		}
@@ -569,10 +579,12 @@ func (g *SymbolGraph) Parents(node *SymbolNode, behavior *TraversalBehavior) []*
 
 func (g *SymbolGraph) parentsUnsorted(node *SymbolNode, behavior *TraversalBehavior) []*SymbolNode {
 	var result []*SymbolNode
-	for parentKey := range g.revDeps[node.Id.BaseId()] {
+	// Nodes, edges and revDeps are all keyed by base ID - compare like Children/GetEdges do
+	nodeBaseId := node.Id.BaseId()
+	for parentKey := range g.revDeps[nodeBaseId] {
 		edges := g.edges[parentKey.BaseId()]
 		for _, edgeDescriptor := range edges {
-			if edgeDescriptor.Edge.To != node.Id {
+			if edgeDescriptor.Edge.To.BaseId() != nodeBaseId {
 				continue
 			}
 			if !shouldIncludeEdge(edgeDescriptor.Edge, behavior) {
@@ -589,10 +601,11 @@ func (g *SymbolGraph) parentsUnsorted(node *SymbolNode, behavior *TraversalBehav
 
 func (g *SymbolGraph) parentsSorted(node *SymbolNode, behavior *TraversalBehavior) []*SymbolNode {
 	var results []SymbolNodeWithOrdinal
-	for parentKey := range g.revDeps[node.Id.BaseId()] {
+	nodeBaseId := node.Id.BaseId()
+	for parentKey := range g.revDeps[nodeBaseId] {
 		edges := g.edges[parentKey.BaseId()]
 		for _, edgeDescriptor := range edges {
-			if edgeDescriptor.Edge.To != node.Id {
+			if edgeDescriptor.Edge.To.BaseId() != nodeBaseId {
 				continue
 			}
 			if !shouldIncludeEdge(edgeDescriptor.Edge, behavior) {
